@@ -253,6 +253,22 @@ def replay_finding(c, hbin):
         c.log("known finding " + FINDING_ID + " no longer reproduces exactly as recorded: " + repr(out))
 
 
+def systematic_histories():
+    """thorough tier: every pair of operations from a small alphabet, in every location x storage x expiration mode,
+    as two requests followed by reads just inside the renewal window, at the deadline and one second after it"""
+    alphabet = ["set:6b:76", "set:6b:r41x40", "erase:6b", "clear", "expose:6b", "hide:6b", "age:20", "defage", "how:0", "how:1",
+                "srv:1", "srv:0", "reset"]
+    H = []
+    for loc in ("client", "server", "both"):
+        for kind in (("memory",) if loc == "client" else ("memory", "files")):
+            for how in range(3):
+                for a in alphabet:
+                    for b in alphabet:
+                        H.append([f"new {loc} {kind} {how} 50 30", f"req 0 1000 jar set:61:62 {a}", f"req 0 1004 jar {b}", "req 0 1006 jar",
+                                  "req 0 1024 jar", "req 0 1054 jar", "req 0 1075 jar", "req 9 1076 old:0"])
+    return H
+
+
 def parse_corpus():
     res = []
     for f in sorted(glob.glob(os.path.join(ROOT, "gen", "corpus", "C06", "*.hist"))):
@@ -373,7 +389,7 @@ def main():
         "no 32-bit overflow in ages/clock (|values| < 2^30)",
         "network storage = session_tcp_storage against an in-process tcp_cache_service over a memory storage (modelled as the memory storage); file storage only through the session_storage interface",
     ]
-    scale = 5 if c.tier == "thorough" else 1
+    scale = 25 if c.tier == "thorough" else 1
 
     c.translate("c06.py")
     proved = c.prove(["Cppcms.C06.Props"], OBLIGATIONS, exe="c06_model")
@@ -393,6 +409,9 @@ def main():
             hists.append(("corpus:" + name, h, True))
         for h in special_histories(c.tier):
             hists.append(("special", h, True))
+        if c.tier == "thorough":
+            for h in systematic_histories():
+                hists.append(("systematic", h, True))
         for _ in range(900 * scale):
             h, judged = gen_history(c.rng, c.tier)
             hists.append(("random", h, judged))
@@ -400,45 +419,66 @@ def main():
     if hbin and not c.replay_path:
         replay_finding(c, hbin)
     if hbin and os.path.exists(model) and hists:
-        cases = [l for _, h, _ in hists for l in h]
-        judged_flags = [j for _, _, j in hists]
-        rc_t, trace, _ = c.run_lines(model, cases, args=("trace",))
-        cfg_of = {}
-        cur = ""
-        for k, l in enumerate(cases):
-            if l.startswith("new "):
-                cur = l
-            cfg_of[k] = cur
-        tr = {k: trace[k] if k < len(trace) else "" for k in range(len(cases))}
-        counter = {"k": -1}
-
-        def nontrivial(cs, o):
-            counter["k"] += 1
-            k = counter["k"]
-            t = tr.get(k, "")
-            if not cs.startswith("req "):
-                return None
-            if t.startswith("loaded") or "written" in t or "err" in t or (t == "empty cleared" and " jar" not in cs and " none" not in cs):
-                return (cfg_of[k], cs, t)
-            return None
-
-        out_i, out_m, diffs, crashed = c.correspond("histories", cases, hbin, model, impl_args=(c.scratch,), nontrivial=nontrivial)
+        # one harness process per batch: a process can create only ~1000 storages with thread-specific connectors
+        # (booster::thread_specific_ptr keys live as long as the thread that used them), so network histories are rationed
+        batches, cur, nnet = [], [], 0
+        for hst in hists:
+            isnet = " network " in hst[1][0]
+            if cur and ((isnet and nnet >= 250) or sum(len(x[1]) for x in cur) > 80000):
+                batches.append(cur); cur, nnet = [], 0
+            cur.append(hst); nnet += 1 if isnet else 0
+        if cur:
+            batches.append(cur)
         dist = {}
-        for t in trace:
-            dist[t] = dist.get(t, 0) + 1
+        all_cases, all_i, all_m, all_bad, all_diffs, njudged_total = [], [], [], [], [], 0
+        crashed_any = None
+        for bi, batch in enumerate(batches):
+            cases = [l for _, h, _ in batch for l in h]
+            judged_flags = [j for _, _, j in batch]
+            rc_t, trace, _ = c.run_lines(model, cases, args=("trace",))
+            cfg_of = {}
+            curcfg = ""
+            for k, l in enumerate(cases):
+                if l.startswith("new "):
+                    curcfg = l
+                cfg_of[k] = curcfg
+            tr = {k: trace[k] if k < len(trace) else "" for k in range(len(cases))}
+            counter = {"k": -1}
+
+            def nontrivial(cs, o, tr=tr, cfg_of=cfg_of, counter=counter):
+                counter["k"] += 1
+                k = counter["k"]
+                t = tr.get(k, "")
+                if not cs.startswith("req "):
+                    return None
+                if t.startswith("loaded") or "written" in t or "err" in t or (t == "empty cleared" and " jar" not in cs and " none" not in cs):
+                    return (cfg_of[k], cs, t)
+                return None
+
+            out_i, out_m, diffs, crashed = c.correspond(f"histories[{bi}]", cases, hbin, model, impl_args=(c.scratch,), nontrivial=nontrivial)
+            for t in trace:
+                dist[t] = dist.get(t, 0) + 1
+            bad, njudged = judge(c, model, cases, out_i, judged_flags)
+            njudged_total += njudged
+            base = len(all_cases)
+            all_cases += cases; all_i += out_i + [""] * (len(cases) - len(out_i)); all_m += out_m + [""] * (len(cases) - len(out_m))
+            all_bad += [(base + k, why) for k, why in bad]
+            all_diffs += [(base + k, cs, a, b) for k, cs, a, b in diffs]
+            if crashed and not crashed_any:
+                k = len(out_i)
+                a0 = history_of(cases, min(k, len(cases) - 1))
+                crashed_any = {"history": cases[a0:k + 1], "stderr": crashed["stderr"]}
+        cases, out_i, out_m, bad, diffs = all_cases, all_i, all_m, all_bad, all_diffs
         c.extra_cov["trace_distribution"] = dist
         c.extra_cov["histories"] = len(hists)
-        c.extra_cov["histories_judged"] = sum(1 for j in judged_flags if j)
+        c.extra_cov["histories_judged"] = sum(1 for _, _, j in hists if j)
+        c.extra_cov["harness_processes"] = len(batches)
         n = len(cases)
         c.samples = [{"case": cases[i], "impl": out_i[i][:400] if i < len(out_i) else None, "model": out_m[i][:400] if i < len(out_m) else None}
                      for i in sorted(set([1, 2, min(n - 1, 40), n // 3, n // 2, n - 1])) if i < n]
-        bad, njudged = judge(c, model, cases, out_i, judged_flags)
-        c.extra_cov["judged_impl_outputs"] = njudged
-        if crashed:
-            k = len(out_i)
-            a = history_of(cases, min(k, n - 1))
-            c.violation("sanitizer abort / crash of the real code", {"history": cases[a:k + 1], "stderr": crashed["stderr"],
-                                                                       "replay_cmd": "bin/check C06 --replay <this file>"})
+        c.extra_cov["judged_impl_outputs"] = njudged_total
+        if crashed_any:
+            c.violation("sanitizer abort / crash of the real code", dict(crashed_any, replay_cmd="bin/check C06 --replay <this file>"))
         seen_hist = set()
         for k, why in bad[:50]:
             a = history_of(cases, k)
@@ -453,7 +493,7 @@ def main():
             c.violation("property predicate (Spec.lean) false on the implementation's answers: " + why,
                         {"history": small, "impl_output": o2, "model_output": m2, "judge": j2, "unshrunk_history": hist,
                          "replay_cmd": "bin/check C06 --replay <this file>"})
-        if diffs and not bad and not crashed:
+        if diffs and not bad and not crashed_any:
             k, cs, a, b = diffs[0]
             h0 = history_of(cases, k)
             c.broke("correspondence stream histories",
